@@ -152,6 +152,8 @@ def _rekey_case(bi, route, v, dst_state, prov, sib, payload):
                 pass
             ok = ok and s.agree("/p")
         ok = ok and s.handles_follow(0) if not collided else ok
+        if ok and not collided:
+            ok = s.session_agree("/p")      # the running session (in-memory state point cache) hands out the same, type-exact state points by id
         if ok and not collided and new is not None and (doc is not None):
             # the document handle of every live copy describes the new job
             for j in s.handles[0].jobs:
@@ -255,7 +257,7 @@ def h_move_clone(bi: int, kind: int, src_init: bool, dst_state: int, payload: in
     assert r[0]
 
 
-TYPED = [0, 1, 2, None, "a", 1.5, [0], {"c": 0}]
+TYPED = [0, 1, 2, None, "a", 1.5, [0], {"c": 0}, {"d": 1}, {"c": 0, "d": 1}]   # the last two: mappings that share no / one sub-key with {"c": 0}
 
 
 def _update_case(i0, i1, extra, overwrite):
@@ -284,21 +286,21 @@ def _update_case(i0, i1, extra, overwrite):
 
 def collection_to_none(i0, i1, overwrite):
     """known-finding predicate: a list / mapping value is replaced by None through whole assignment (update_statepoint(overwrite=True))"""
-    return bool(overwrite) and i0 in (6, 7) and i1 == 3
+    return bool(overwrite) and i0 in (6, 7, 8, 9) and i1 == 3
 
 
 def h_update_sp(i0: int, i1: int, extra: bool, overwrite: bool):
-    assert 0 <= i0 < 8 and 0 <= i1 < 8
+    assert 0 <= i0 < 10 and 0 <= i1 < 10
     assert kf_filter("C04.collection_to_none", collection_to_none(i0, i1, overwrite))
     fresh_path()
-    i0, i1, extra, overwrite = ci(i0, 0, 7), ci(i1, 0, 7), cb(extra), cb(overwrite)
+    i0, i1, extra, overwrite = ci(i0, 0, 9), ci(i1, 0, 9), cb(extra), cb(overwrite)
     with nt():
         r = _update_case(i0, i1, extra, overwrite)
     reached()
     assert r[0]
 
 
-def _alias_case(bi, v, mut, same_session):
+def _alias_case(bi, v, mut, same_session, pre=False):
     """after job.statepoint = d (or update_statepoint(d)), later mutation of the caller's d must not change what the project reports for the id"""
     base = BASES[bi]
     s = ws.Sim(paths=("/p",))
@@ -306,6 +308,36 @@ def _alias_case(bi, v, mut, same_session):
         s.add_job("/p", base, doc={"k": 1})
         s.open(0, "/p", base)
         job = s.handles[0].jobs[0]
+        if mut == 3 and not pre:
+            r2 = _alias_case(bi, v, mut, same_session, True)     # the same with a handle whose state point object already exists
+            if not r2[0]:
+                return r2
+            memfs.install(s.fs)
+        if mut == 3:
+            if pre:
+                _ = job.statepoint()
+            # the assigned mapping differs from the job's state point only in the JSON TYPE of values (1 -> 1.0 / True, nested too). Whether
+            # the synced dict adopts the new spelling or keeps the ==-equal old one (it keeps it, see DESIGN 6.4) is not judged here:
+            # whatever the handle reports afterwards must hash to its id, and the session's and a later session's by-id view must agree with it
+            def retype(x):
+                if isinstance(x, dict):
+                    return {k: retype(y) for k, y in x.items()}
+                if isinstance(x, list):
+                    return [retype(y) for y in x]
+                if isinstance(x, bool) or not isinstance(x, int):
+                    return x
+                return float(x) if v == 0 else (bool(x) if x in (0, 1) else float(x))
+            job.statepoint = retype(copy.deepcopy(base))
+            now = job.statepoint()
+            ok = refs.canon_id(now) == job.id and refs.same_json(dict(job.cached_statepoint), now)
+            if not same_session:
+                s.pr["/p"].update_cache()
+                s.restart("/p")
+            other = s.pr["/p"].open_job(id=job.id)
+            ok = ok and refs.same_json(other.statepoint(), now) and refs.same_json(dict(other.cached_statepoint), now)
+            ok = ok and [refs.canon_id(dict(j.cached_statepoint)) == j.id for j in s.pr["/p"]].count(False) == 0
+            obs, facts = ws.observe(s.fs, "/p")
+            return (ok and facts["check"] == [] and job.id in obs), []
         d = {"a": v + 2, "l": [0, {"x": 0}]}
         want = copy.deepcopy(d)
         job.statepoint = d
@@ -328,9 +360,9 @@ def _alias_case(bi, v, mut, same_session):
 
 
 def h_assign_alias(bi: int, v: int, mut: int, same_session: bool):
-    assert 0 <= bi < 6 and 0 <= v <= 1 and 0 <= mut <= 2
+    assert 0 <= bi < 6 and 0 <= v <= 1 and 0 <= mut <= 3
     fresh_path()
-    bi, v, mut, same_session = ci(bi, 0, 5), ci(v, 0, 1), ci(mut, 0, 2), cb(same_session)
+    bi, v, mut, same_session = ci(bi, 0, 5), ci(v, 0, 1), ci(mut, 0, 3), cb(same_session)
     with nt():
         r = _alias_case(bi, v, mut, same_session)
     reached()
